@@ -12,10 +12,10 @@ type Span struct {
 	Filename   string
 }
 type Diag struct {
-	Level   string // error | warning | hint | syntax
-	Message string
-	Span    Span
-	DisplayOK bool   `json:",omitempty"` // rendering against the named file's text returned
+	Level      string // error | warning | hint | syntax
+	Message    string
+	Span       Span
+	DisplayOK  bool   `json:",omitempty"` // rendering against the named file's text returned
 	DisplayErr string `json:",omitempty"`
 }
 
@@ -35,11 +35,11 @@ type Invocation struct {
 }
 
 type Request struct {
-	ID  uint64
-	Op  string // run | analyze | print | transform | lex | ping
-	Rep int    `json:",omitempty"` // repeat the whole pipeline Rep times in this process (C14)
-	RecompileAnalysed int `json:",omitempty"` // VM: compile the SAME analysed modules this many more times and run each result (a host may cache analysed programs)
-	RerunCompiled int `json:",omitempty"` // VM: run the SAME compiled program this many more times on fresh VMs (a host may cache compiled programs)
+	ID                uint64
+	Op                string // run | analyze | print | transform | lex | ping
+	Rep               int    `json:",omitempty"` // repeat the whole pipeline Rep times in this process (C14)
+	RecompileAnalysed int    `json:",omitempty"` // VM: compile the SAME analysed modules this many more times and run each result (a host may cache analysed programs)
+	RerunCompiled     int    `json:",omitempty"` // VM: run the SAME compiled program this many more times on fresh VMs (a host may cache compiled programs)
 
 	Modules map[string]string
 	Entry   string
@@ -50,18 +50,18 @@ type Request struct {
 	Backends []string // "vm", "tree"
 	Limits   Limits
 	// Host-provided singleton values: key "module/$Name" or "$Name".
-	Singletons map[string]hs.WV `json:",omitempty"`
-	AnyVals    []hs.WV          `json:",omitempty"`
-	HostArgTypes bool           `json:",omitempty"`
+	Singletons   map[string]hs.WV `json:",omitempty"`
+	AnyVals      []hs.WV          `json:",omitempty"`
+	HostArgTypes bool             `json:",omitempty"`
 
-	CancelAt int64 `json:",omitempty"` // cancel becomes visible at the k-th poll of the context (0 = never)
-	PollCap  int64 `json:",omitempty"` // safety: cancel anyway at this poll count (0 = none)
-	CancelBeforeStart bool `json:",omitempty"` // the host cancels after the VM was created and before main is started
-	CancelAtWrite     int  `json:",omitempty"` // the host cancels when it receives the n-th write (i.e. between two polls of the writing core)
+	CancelAt          int64 `json:",omitempty"` // cancel becomes visible at the k-th poll of the context (0 = never)
+	PollCap           int64 `json:",omitempty"` // safety: cancel anyway at this poll count (0 = none)
+	CancelBeforeStart bool  `json:",omitempty"` // the host cancels after the VM was created and before main is started
+	CancelAtWrite     int   `json:",omitempty"` // the host cancels when it receives the n-th write (i.e. between two polls of the writing core)
 
-	Optimize  bool `json:",omitempty"`
-	SkipMain  bool `json:",omitempty"` // only initialise (NewVM); used with Invocations
-	Annotations bool `json:",omitempty"` // evaluate the compiled function annotations the way cmd/testing_run.go does (after NewVM, before main)
+	Optimize    bool         `json:",omitempty"`
+	SkipMain    bool         `json:",omitempty"` // only initialise (NewVM); used with Invocations
+	Annotations bool         `json:",omitempty"` // evaluate the compiled function annotations the way cmd/testing_run.go does (after NewVM, before main)
 	Invocations []Invocation `json:",omitempty"`
 
 	// print / transform
@@ -69,9 +69,9 @@ type Request struct {
 	Seed      int64  `json:",omitempty"`
 	Passes    int    `json:",omitempty"`
 
-	WantTypes  bool `json:",omitempty"` // report probe variable types
-	WantRender bool `json:",omitempty"` // render every diagnostic / syntax error against its file
-	GoMaxProcs int  `json:",omitempty"`
+	WantTypes   bool `json:",omitempty"` // report probe variable types
+	WantRender  bool `json:",omitempty"` // render every diagnostic / syntax error against its file
+	GoMaxProcs  int  `json:",omitempty"`
 	YieldInHost bool `json:",omitempty"` // runtime.Gosched()/short sleeps in host callbacks (C17)
 }
 
@@ -82,53 +82,54 @@ type TriggerCall struct {
 }
 
 type InvResult struct {
-	Refused   string `json:",omitempty"` // host-boundary refusal (panic text of SpawnSync etc.)
-	Exception bool
-	Outcome   Outcome
-	Ret       hs.WV
+	Refused    string `json:",omitempty"` // host-boundary refusal (panic text of SpawnSync etc.)
+	Exception  bool
+	Outcome    Outcome
+	Ret        hs.WV
 	RetDisplay string
-	Writes    []string
-	Residue   Residue
+	Writes     []string
+	Residue    Residue
 }
 
 type Outcome struct {
-	Class   string // ok | fatal | terminated | exception | exit
-	Kind    string // fatal kind name
-	Message string // first line of message
+	Class       string // ok | fatal | terminated | exception | exit
+	Kind        string // fatal kind name
+	Message     string // first line of message
 	FullMessage string `json:",omitempty"`
-	Span    Span
-	HasSpan bool
+	Span        Span
+	HasSpan     bool
 }
 
 type Residue struct {
 	Stack, CallStack, CatchLabels, Cores int
-	MemPtr      int64
-	LockFree    bool
+	MemPtr                               int64
+	LockFree                             bool
 }
 
 type RunResult struct {
-	Backend    string
-	CompileErr string `json:",omitempty"`
-	InitPanic  string `json:",omitempty"`
-	Writes     []string
-	Triggers   []TriggerCall
-	Annotations []string `json:",omitempty"` // "module.fn: ident" / "module.fn: trigger <connective> <source>(<displayed argument list>)", sorted
-	Singletons []string
-	Outcome    Outcome
-	Polls      int64
-	PollsAfterCancel int64
-	WritesAfterCancel int
-	Residue    Residue
-	HostTypeErrors []string `json:",omitempty"`
-	Invs       []InvResult  `json:",omitempty"`
+	Backend                           string
+	CompileErr                        string `json:",omitempty"`
+	InitPanic                         string `json:",omitempty"`
+	Writes                            []string
+	Triggers                          []TriggerCall
+	Annotations                       []string `json:",omitempty"` // "module.fn: ident" / "module.fn: trigger <connective> <source>(<displayed argument list>)", sorted
+	Singletons                        []string
+	Outcome                           Outcome
+	Polls                             int64
+	PollsAfterCancel                  int64
+	WritesAfterCancel                 int
+	MsAfterCancel                     int64 `json:",omitempty"` // wall time between the cancellation and the return of the run
+	Residue                           Residue
+	HostTypeErrors                    []string    `json:",omitempty"`
+	Invs                              []InvResult `json:",omitempty"`
 	GoroutinesBefore, GoroutinesAfter int
-	LateWrites int // writes arriving after Wait() returned
-	Reruns     []Rerun `json:",omitempty"` // RerunCompiled: output and outcome of every further run of the same compiled program
+	LateWrites                        int     // writes arriving after Wait() returned
+	Reruns                            []Rerun `json:",omitempty"` // RerunCompiled: output and outcome of every further run of the same compiled program
 }
 
 type Rerun struct {
-	Writes  []string
-	Outcome Outcome
+	Writes    []string
+	Outcome   Outcome
 	InitPanic string `json:",omitempty"`
 }
 
@@ -143,24 +144,24 @@ type Response struct {
 	Diags        []Diag
 	Accepted     bool // no syntax errors and no error-level diagnostics
 	ModuleNames  []string
-	Runs         []RunResult `json:",omitempty"`
-	Reps         []RepResult `json:",omitempty"`
-	Texts        map[string]string `json:",omitempty"` // print / transform output
+	Runs         []RunResult         `json:",omitempty"`
+	Reps         []RepResult         `json:",omitempty"`
+	Texts        map[string]string   `json:",omitempty"` // print / transform output
 	Variants     []map[string]string `json:",omitempty"`
-	Probes       []ProbeType `json:",omitempty"`
-	Tokens       []Token     `json:",omitempty"`
+	Probes       []ProbeType         `json:",omitempty"`
+	Tokens       []Token             `json:",omitempty"`
 
 	// Filled by the client, never by the worker:
-	Crash     string `json:",omitempty"` // worker died: signature "panic class @ first repo frame"
-	CrashLog  string `json:",omitempty"`
-	Hang      bool   `json:",omitempty"`
-	Inconclusive bool `json:",omitempty"`
+	Crash        string `json:",omitempty"` // worker died: signature "panic class @ first repo frame"
+	CrashLog     string `json:",omitempty"`
+	Hang         bool   `json:",omitempty"`
+	Inconclusive bool   `json:",omitempty"`
 }
 
 type RepResult struct {
-	Diags []Diag
+	Diags        []Diag
 	SyntaxErrors []Diag
-	Runs  []RunResult
+	Runs         []RunResult
 }
 
 type Token struct {
